@@ -44,6 +44,8 @@ def weight_text(draw, kind="nice"):
     if kind == "nice":
         return draw(st.sampled_from(["1", "1", "2", "3", "4", "5", "10", "0", "0.5", "3.4", "1.0",
                                      "0.25", "7", "100", "0.0", "2.5", "9", "50"]))
+    if kind == "ints":
+        return str(draw(st.one_of(st.integers(0, 12), st.integers(0, 1000), st.sampled_from([0, 1, 1, 2, 3, 10 ** 6, 10 ** 9]))))
     # wide: ints and decimals 1e-9 .. 1e9
     k = draw(st.integers(0, 5))
     if k == 0:
